@@ -66,7 +66,7 @@ def gen_cases(ctx):
         cfg = dict(max_cholesky_size=rng.choice([None, None, 0]),
                    max_root_decomposition_size=rng.choice([None, None, max(1, n - 1), n + 2]),
                    fast_root=rng.choice([None, None, False]))
-        yield dict(spec=spec, query=q, method=method, upper=rng.random() < 0.4, cfg=cfg, rseed=rng.randrange(1 << 30))
+        yield dict(spec=spec, query=q, method=method, upper=rng.random() < 0.4, cfg=cfg, rseed=rng.randrange(1 << 30), parts=rng.random() < 0.35)
 
 
 def _dense(x):
@@ -80,8 +80,37 @@ def run_case(case, ctx):
     b = common.try_build(spec, ctx)
     if b is None:
         return
-    op, dense = b.op, b.dense
-    n, batch = spec["n"], spec["batch"]
+    # the operator's own sub-operators (square, symmetric), denoted BEFORE anything is factorized
+    parts = []
+    if case.get("parts"):
+        from .. import model
+
+        for a in list(getattr(b.op, "_args", ())) + list(getattr(b.op, "_kwargs", {}).values()):
+            if hasattr(a, "to_dense") and not torch.is_tensor(a) and a.dim() >= 2 and a.shape[-1] == a.shape[-2] and a.shape[-1] >= 2:
+                d, exd = compare.attempt(model.denote, a)
+                if exd is None and float((d - d.mT).abs().max()) <= 1e-6 * (float(d.abs().max()) + 1e-300):
+                    parts.append((a, d))
+    case["_state"] = {}
+    try:
+        _run_parts(case, ctx, spec, b, parts)
+    finally:
+        case.pop("_state", None)
+
+
+def _run_parts(case, ctx, spec, b, parts):
+    _judge(case, ctx, spec, b.op, b.dense)
+    # ... and factorized the same way AFTER the whole: a factorization of the sum / product / scaled operator must leave the
+    # factorizations its parts answer with (shared memo entries, tensors handed out by reference) factorizations of the PARTS
+    for a, d in parts:
+        ev = torch.linalg.eigvalsh((d.to(torch.float64) + d.to(torch.float64).mT) / 2)
+        if float(ev[..., 0].min()) < (1e-6 if case["query"] in ("cholesky", "torch.cholesky", "root_inv_decomposition") else -1e-8) * float(ev[..., -1].abs().max()):
+            continue
+        ctx.stat("parts_refactorized_after_whole")
+        _judge(case, ctx, spec, a, d, part=type(a).__name__)
+
+
+def _judge(case, ctx, spec, op, dense, part=None):
+    n, batch = dense.shape[-1], list(dense.shape[:-2])
     dt = dense.dtype
     A64 = dense.to(torch.float64)
     A64 = (A64 + A64.mT) / 2
@@ -91,8 +120,9 @@ def run_case(case, ctx):
     lam_max = float(evA[..., -1].abs().max())
     lam_min = float(evA[..., 0].min())
     kappa = lam_max / max(lam_min, 1e-300) if lam_min > 0 else float("inf")
-    tags = common.spec_tags(spec)
-    info = common.spec_info(spec) | {"q:" + q, f"method:{method}", "cfg:" + settings_key(cfg), spec["kind"]} | ({"upper"} if upper and "cholesky" in q else set())
+    tags = common.spec_tags(spec) | ({"part_after_whole"} if part else set())
+    info = common.spec_info(spec) | {"q:" + q, f"method:{method}", "cfg:" + settings_key(cfg), spec["kind"]} | ({"upper"} if upper and "cholesky" in q else set()) \
+        | ({"part:" + part} if part else set())
     path = zoo.class_path(spec, 2)
     ctx.stat("queries")
 
@@ -132,6 +162,12 @@ def run_case(case, ctx):
             except Exception as e:  # noqa: BLE001
                 ex = compare.Exc(e)
     used_lanczos = rec.count("lanczos.end") > 0
+    st = case.setdefault("_state", {})
+    if part and st.get("lanczos"):
+        # the whole was factorized through a Lanczos run: what its part answers now may be that run's (jittered, compressed) result,
+        # served from the part's memo
+        used_lanczos = True
+    st["lanczos"] = st.get("lanczos", False) or used_lanczos
     used_pchol = rec.count("pchol.end") > 0 or method == "pivoted_cholesky"
     pathk = "lanczos" if used_lanczos else ("pchol" if used_pchol else "direct")
     ctx.stat("path:" + pathk)
@@ -143,7 +179,7 @@ def run_case(case, ctx):
             return
         ctx.fail(oname, "exception", exc=ex, **kw)
         return
-    key = f"{spec['cls']}|{oname}|{pathk}|{settings_key(cfg)}|{spec['dtype']}"
+    key = f"{spec['cls']}|{oname}|{pathk}|{settings_key(cfg)}|{spec['dtype']}" + (f"|part:{part}" if part else "")
     eps = torch.finfo(dt).eps
     # relative to the matrix, but never below 1e-2: psd_safe_cholesky and the Lanczos post-processing add an ABSOLUTE jitter (1e-8 .. 1e-4),
     # so a matrix of norm 1e-9 (a rank-1 kernel column squared) cannot be reproduced to a relative tolerance
